@@ -134,6 +134,9 @@ func runResp(focus string) func(s *simrt.Sim) {
 		if faults {
 			e.net.Seg = []int{0, 3, 8}[tp.Draw(3, "net.seg")]
 		}
+		if focus == "C34" {
+			s.Invariant(e.queuedForClosedInvariant)
+		}
 		p0 := h2Panics()
 		iw := []uint32{65535, 65535, 1 << 20, 1000, 100, 1, 0}[tp.Draw(7, "cli.init_window")]
 		mf := []uint32{16384, 16384, 32768, 1 << 20}[tp.Draw(4, "cli.max_frame")]
@@ -458,3 +461,51 @@ func firstDiff(a, b []byte) int {
 }
 
 var _ = xhpack.HeaderField{}
+
+var errQueuedForClosed = fmt.Errorf("C34.afterreset: a frame other than RST_STREAM is queued for sending on a stream the server has already closed")
+
+// queuedForClosedInvariant (white box, every quiescent point): a frame that waits in the
+// write scheduler without a stream attached is written unconditionally; if it addresses
+// a stream that is closed by now it will go out after the stream ended or was reset.
+// On the wire such a frame cannot be told from one that was started just before the
+// close was processed, hence the look inside.
+func (e *h2eng) queuedForClosedInvariant() error {
+	sc := e.sc
+	if sc == nil {
+		return nil
+	}
+	bad := func(q []frameWriteMsg) bool {
+		for _, wm := range q {
+			if wm.stream != nil {
+				continue // startFrameWrite drops these when their stream is closed and reset
+			}
+			var id uint32
+			switch w := wm.write.(type) {
+			case writeWindowUpdate:
+				id = w.streamID
+			case *writeData:
+				id = w.streamID
+			case *writeResHeaders:
+				id = w.streamID
+			case write100ContinueHeadersFrame:
+				id = w.streamID
+			}
+			if id == 0 || id > sc.maxStreamID {
+				continue
+			}
+			if _, open := sc.streams[id]; !open {
+				return true
+			}
+		}
+		return false
+	}
+	if bad(sc.writeSched.zero.s) {
+		return errQueuedForClosed
+	}
+	for _, q := range sc.writeSched.sq {
+		if bad(q.s) {
+			return errQueuedForClosed
+		}
+	}
+	return nil
+}
